@@ -170,6 +170,13 @@ def _isinstance(ex, st, pos, kw, node, star):
     table = {"str": (VStr,), "int": (VInt, VBool), "bool": (VBool,), "float": (VFloat,),
              "list": (VSeq, VEmptySeq), "set": (VSet, VEmptySet), "dict": (VMap, VEmptyMap),
              "Path": (), "PathLike": (), "Integral": (VInt, VBool)}
+    if isinstance(vv, VAtom) and isinstance(vv.kind, Abstract):
+        ts = []
+        for n in names:
+            if "isa:" + n not in vv.kind.attrs:
+                raise Unsupported(f"isinstance({vv.kind.name}, {n}) not declared by the contract")
+            ts.append(z3.Function(f"{vv.kind.name}.isa:{n}", vv.kind.sort(), z3.BoolSort())(vv.t))
+        return [(st, VBool(z3.Or(ts)))]
     if isinstance(vv, VAtom):
         return [(st, VBool(any(n in ("Path", "PathLike") and vv.kind.name == "Path" or
                                n == "str" and vv.kind.name == "PathStr" for n in names)))]
@@ -366,3 +373,11 @@ for _lvl in ("warning", "error", "critical"):
 @stub("tqdm.tqdm")
 def _tqdm(ex, st, pos, kw, node, star):
     return [(st, pos[0])]
+
+
+@stub("collections.defaultdict")
+def _defaultdict(ex, st, pos, kw, node, star):
+    fac = pos[0].payload if pos and isinstance(pos[0], VFunc) else None
+    if fac not in ("set", "int", "list"):
+        raise Unsupported(f"defaultdict({fac})")
+    return [(st, st.alloc(HeapObj("cell", val=VEmptyDefault(fac))))]
